@@ -48,7 +48,7 @@ package safehtml
 //@ func URLSanitized(url string) (r URL)
 //@   serves C11 C02 C15
 //@   ensures keep: inlang(URLAccept, url) ==> sameview(r.str, url)
-//@   ensures drop: !inlang(URLAccept, url) ==> r.str == "about:invalid#zGoSafez"
+//@   ensures drop: !inlang(URLAccept, url) ==> seqeq(r.str, "about:invalid#zGoSafez")
 
 //@ func appendURLToSet(url string, buffer *bytes.Buffer) ()
 //@   serves C12 C08
@@ -112,3 +112,25 @@ package safehtml
 //@ func (i Identifier) String() (r string)
 //@   serves C03 C18
 //@   ensures same: sameview(r, i.str)
+
+//@ func escapeAndCoerceToInterchangeValid(str string) (r string)
+//@   serves C10 C03 C01
+//@   ensures spec: seqeq(r, htmlesc(coerce(str)))
+
+//@ func HTMLEscaped(text string) (r HTML)
+//@   serves C10 C03 C01
+//@   ensures spec: seqeq(r.str, htmlesc(coerce(text)))
+
+//@ func coerceToUTF8InterchangeValid(s string) (r string)
+//@   serves C10
+//@   ensures spec: seqeq(r, coerce(s))
+//@   loop 1
+//@     invariant len(runes) == rangeidx
+//@     invariant seqeq(seq(runes), coerceupto(utf8dec(s), rangeidx))
+
+//@ func HTMLConcat(htmls ...HTML) (r HTML)
+//@   serves C10
+//@   ensures spec: seqeq(r.str, catupto(htmls, len(htmls)))
+//@   loop 1
+//@     invariant len(b) == slen(seq(b))
+//@     invariant seqeq(seq(b), catupto(htmls, rangeidx))
